@@ -278,4 +278,56 @@ theorem C17_roundtrip_decimal (neg : Bool) (a : Nat) (ds : Str) (hds : ∀ c ∈
 example : showDec true 12 "50".toList = "-12.50".toList ∧
     decValue true 12 "50".toList = .fin { neg := true, mant := 1250, exp := -2 } := by decide +kernel
 
+/-! ## the values Python treats as false
+
+`0`, `0.0`, `-0.0`, `0j`, the empty string, `False`, `None`, points of zeros and a latitude / longitude of zero degrees
+and zero minutes are ordinary values of the converters: the theorems above are stated for all integers, decimals,
+strings and points, so they cover them; the instances are spelled out here, and the lat/lon form — which has no
+round-trip theorem — is evaluated for all four hemispheres in both letter cases. -/
+
+theorem showInt_zero : showInt 0 = ['0'] := by decide +kernel
+
+example : convert2Num "0".toList = .ok (.int 0) ∧ convert2StrBoolPathCoordPointNum "0".toList = .ok (.int 0) := by
+  have h := C17_roundtrip_int 0
+  rw [showInt_zero] at h
+  exact ⟨h.1, h.2.2.2.2.2.2.2.2.2⟩
+
+example :
+    convert2Num "0.0".toList = .ok (.float (.fin { neg := false, mant := 0, exp := -1 })) ∧
+    convert2Num "-0.0".toList = .ok (.float (.fin { neg := true, mant := 0, exp := -1 })) ∧
+    convert2StrBoolPathCoordPointNum "-0.0".toList = .ok (.float (.fin { neg := true, mant := 0, exp := -1 })) ∧
+    convert2Num "0j".toList = .ok (.complex (.fin { neg := false, mant := 0, exp := 0 }) (.fin { neg := false, mant := 0, exp := 0 })) ∧
+    convert2Num "0x0".toList = .ok (.int 0) ∧ convert2Num "-0".toList = .ok (.int 0) := by decide +kernel
+
+example : convert2StrBoolPathCoordPointNum "\"\"".toList = .ok (.str []) ∧ convert2StrBoolCoordNum "''".toList = .ok (.str []) :=
+  ⟨((C17_roundtrip_string []).1 (by simp)).1, ((C17_roundtrip_string []).2 (by simp)).2⟩
+
+example :
+    convert2StrBoolPathCoordPointNum "0x0y".toList = .ok (.point .xy [intF 0, intF 0]) ∧
+    convert2StrBoolPathCoordPointNum "0n0e".toList = .ok (.point .ne [intF 0, intF 0]) ∧
+    convert2StrBoolPathCoordPointNum "0f0s0b".toList = .ok (.point .fsb [intF 0, intF 0, intF 0]) := by
+  have h1 := C17_roundtrip_point_xy 0 0
+  have h2 := C17_roundtrip_point_ne 0 0
+  have h3 := C17_roundtrip_point_fsb 0 0 0
+  rw [showInt_zero] at h1 h2 h3
+  exact ⟨h1, h2, h3⟩
+
+/-- zero degrees, zero minutes: `neg` is the hemisphere (S, W), `e` the number of decimals of the minutes -/
+def zeroCoord (neg : Bool) (e : Int) : Res :=
+  .ok (.coord neg (.fin { neg := false, mant := 0, exp := 0 }) (.fin { neg := false, mant := 0, exp := e }))
+
+example :
+    convert2CoordNum "0N0.0".toList = zeroCoord false (-1) ∧ convert2CoordNum "0E0.0".toList = zeroCoord false (-1) ∧
+    convert2CoordNum "0S0.0".toList = zeroCoord true (-1) ∧ convert2CoordNum "0W0.0".toList = zeroCoord true (-1) ∧
+    convert2CoordNum "0n0.0".toList = zeroCoord false (-1) ∧ convert2CoordNum "0e0.0".toList = zeroCoord false (-1) ∧
+    convert2CoordNum "0s0.0".toList = zeroCoord true (-1) ∧ convert2CoordNum "0w0.00".toList = zeroCoord true (-2) ∧
+    convert2CoordNum "00n00.000".toList = zeroCoord false (-3) ∧
+    convert2CoordPointNum "0S0.0".toList = zeroCoord true (-1) ∧
+    convert2BoolCoordNum "0E0.0".toList = zeroCoord false (-1) ∧
+    convert2StrBoolCoordNum "0w0.0".toList = zeroCoord true (-1) ∧
+    convert2BoolCoordPointNum "0N0.0".toList = zeroCoord false (-1) ∧
+    convert2PathCoordPointNum "0e0.0".toList = zeroCoord false (-1) ∧
+    convert2BoolPathCoordPointNum "0s0.0".toList = zeroCoord true (-1) ∧
+    convert2StrBoolPathCoordPointNum "0W0.0".toList = zeroCoord true (-1) := by decide +kernel
+
 end Ioflo.Literal
